@@ -111,12 +111,17 @@ def instantiations(op: Operator, max_varargs=3, implicit=False):
                         v[i] = alt
                     combos.append(v)
             if implicit:
-                for i, p in enumerate(params):
-                    if type(_types.without_const(p)) is Float:
-                        for alt in ("int64", "int8", "uint16"):
-                            v = list(base)
-                            v[i] = alt
-                            combos.append(v)
+                fpos = [i for i, p in enumerate(params) if type(_types.without_const(p)) is Float]
+                for i in fpos:
+                    for alt in ("int64", "int8", "uint16"):
+                        v = list(base)
+                        v[i] = alt
+                        combos.append(v)
+                # two or more (but not all) Float parameters given integers at once
+                if 2 < len(fpos) <= 4:
+                    for r in range(2, len(fpos)):
+                        for sub in itertools.combinations(fpos, r):
+                            combos.append(["int64" if i in sub else b for i, b in enumerate(base)])
                 tv_pos = [i for i, tv in enumerate(tyvar) if tv]
                 if len(tv_pos) >= 2:
                     for i in tv_pos:
